@@ -432,3 +432,59 @@ func VxC06DBCompact() {
 	}
 	vx.Assert("l0-contiguous-suffix", okRun)
 }
+
+// VxC06CacheRace: the per-level "newest file" cache under the one interleaving the
+// store's level monitors produce at start-up: the level-2 monitor looks up the
+// newest level-1 file on a cold cache (a listing request), and while that request
+// is in flight the level-1 monitor finishes a compaction and records its new file
+// in the cache. The other goroutine can only do so if the cache is not locked
+// during the listing - the harness asks with TryLock, which is how the unchanged
+// code excludes the interleaving. Afterwards the cache must still name the newest
+// level-1 file and the next compaction must continue the level.
+func VxC06CacheRace() {
+	dir := vx.TempDir()
+	db := NewDB(dir + "/app.db")
+	c := &vxStoreClient{}
+	var files []*vxLTX
+	for t := 1; t <= 4; t++ {
+		f := &vxLTX{level: 0, min: ltx.TXID(t), max: ltx.TXID(t), commit: 2, ts: int64(1000 + t), pages: []vxPg{{pgno: 1, tag: vx.U64("tag")}}}
+		if t == 1 {
+			f.pages = []vxPg{{pgno: 1, tag: vx.U64("tag")}, {pgno: 2, tag: vx.U64("tag2")}}
+		}
+		files = append(files, f)
+	}
+	c.put(files[0])
+	c.put(files[1])
+	c.put(&vxLTX{level: 1, min: 1, max: 1, commit: 2, ts: 1001, pages: []vxPg{{pgno: 1, tag: files[0].pages[0].tag}, {pgno: 2, tag: files[0].pages[1].tag}}})
+	db.Replica = NewReplicaWithClient(db, c)
+	db.compactor.client = c
+	ctx := context.Background()
+	raced := false
+	c.onList = func() {
+		if !db.maxLTXFileInfos.TryLock() {
+			return // the cache is locked while the listing runs: nobody gets in
+		}
+		db.maxLTXFileInfos.Unlock()
+		raced = true
+		if _, err := db.Compact(ctx, 1); err != nil {
+			panic(err)
+		}
+	}
+	_, err := db.MaxLTXFileInfo(ctx, 1)
+	c.onList = nil
+	vx.Assert("lookup-succeeds", err == nil)
+	vx.ObserveBool("raced", raced)
+	// the primary moves on, the level-1 monitor compacts again
+	c.put(files[2])
+	_, cerr := db.Compact(ctx, 1)
+	vx.Assert("next-compaction-succeeds", cerr == nil)
+	vx.Assert("level-1-contiguous", db.compactor.VerifyLevelConsistency(ctx, 1) == nil)
+	info, merr := db.MaxLTXFileInfo(ctx, 1)
+	var max ltx.TXID
+	for _, f := range c.files {
+		if f.Level == 1 && f.MaxTXID > max {
+			max = f.MaxTXID
+		}
+	}
+	vx.Assert("cache-names-the-newest-level-1-file", merr == nil && info.MaxTXID == max && max == 3)
+}
